@@ -227,6 +227,12 @@ fn torsion_compute() -> [Pt; 8] {
 /// Check the projective curve equation and Segre relation on raw extended coordinates
 /// (canonical bytes of X, Y, Z, T): Z != 0, (-X^2+Y^2) Z^2 = Z^4 + d X^2 Y^2, X Y = Z T.
 pub fn check_extended(c: &[[u8; 32]; 4]) -> Result<Pt, &'static str> {
+    // the accessor hands out what the field encoder produced for each coordinate: always the representative below p
+    for b in c.iter() {
+        if Fp::from_bytes(b).to_bytes() != *b {
+            return Err("coordinate not canonically encoded");
+        }
+    }
     let x = Fp::from_bytes(&c[0]);
     let y = Fp::from_bytes(&c[1]);
     let z = Fp::from_bytes(&c[2]);
